@@ -12,6 +12,7 @@ import (
 	"verif/harness/cbpf"
 	"verif/harness/engine"
 	"verif/harness/evid"
+	"verif/harness/labelm"
 	"verif/harness/refsem"
 )
 
@@ -29,7 +30,29 @@ type compileRun struct {
 	sampleN map[string]int
 }
 
+// installHangHandler: a call into the library that does not return within engine.HangLimit is a violation of every
+// compiler property (no program is produced at all); it is recorded and the process ends, because the spinning call
+// cannot be stopped.
+func installHangHandler(ctx *evid.Ctx) {
+	engine.OnHang = func(describe func() any) {
+		var rep any
+		if describe != nil {
+			rep = describe()
+		}
+		b, _ := json.Marshal(rep)
+		h := sha256.Sum256(b)
+		ctx.Violation(fmt.Sprintf("%s:hang:%x", ctx.ID, h[:6]), fmt.Sprintf("a call into the compiler did not return within %v (non-terminating Assemble); the run was stopped there", engine.HangLimit), rep)
+		ctx.Capped("stopped at a non-terminating call")
+		os.Exit(ctx.Finish())
+	}
+	labelm.Watch = func(s *labelm.Spec) func() {
+		tok := engine.Enter(func() any { return map[string]any{"kind": "label-program", "spec": s} })
+		return func() { engine.Leave(tok) }
+	}
+}
+
 func newCompileRun(ctx *evid.Ctx, classes ...string) *compileRun {
+	installHangHandler(ctx)
 	r := &compileRun{ctx: ctx, classes: map[string]bool{}, progs: map[[16]byte]struct{}{}, decSets: map[string]struct{}{},
 		other: map[string]int64{}, sampleN: map[string]int{}}
 	for _, c := range classes {
